@@ -86,6 +86,39 @@ func genSearchScenario(rng *rand.Rand, profile string, thorough bool) *SearchSce
 	g := root.Game()
 
 	switch profile {
+	case "c07game":
+		// long self-played games on one engine with ordinary searches: the
+		// variations reported late in a game depend on table and history state
+		// left by all earlier searches, and on repetitions in the game history
+		sc.TTBytes = pick(rng, []int{32768, 1 << 20, 1 << 20, 4 << 20})
+		if rng.IntN(2) == 0 {
+			// start from a repetition-prone history
+			r2 := genRoot(rng, pick(rng, []string{"shuffle2", "endgame", "bench-play", "fifty", "captures"}))
+			sc.StartFEN, sc.Prefix = r2.FEN, r2.Moves
+		}
+		n := 8 + rng.IntN(24)
+		for i := 0; i < n; i++ {
+			st := SearchStep{Req: Request{Limits: Limits{Nodes: -1}, StopAtPoll: -1, Output: true}, Play: "best"}
+			switch rng.IntN(4) {
+			case 0:
+				st.Req.Depth = 5 + rng.IntN(5)
+				st.Req.SoftNodes = 30000
+			case 1:
+				st.Req.SoftNodes = pick(rng, []int{2000, 6000, 15000})
+			case 2:
+				st.Req.Depth = 7 + rng.IntN(3)
+				st.Req.Nodes = pick(rng, []int{3000, 12000, 40000})
+			case 3:
+				st.Req.SoftTime = int64(pick(rng, []int{5, 20}))
+				st.Req.Depth = 10
+				st.Sched = Sched{Quanta: []Quantum{{Polls: 200, CostUS: 100}}}
+			}
+			if rng.IntN(10) == 0 {
+				st.Req.StopAtPoll = 500 + rng.IntN(20000)
+			}
+			sc.Steps = append(sc.Steps, st)
+		}
+		return sc
 	case "c08":
 		sc.TTBytes = pick(rng, []int{32768, 65536, 1 << 20, 1 << 20, 4 << 20})
 		sc.Twins = 1 + rng.IntN(2)
